@@ -323,6 +323,6 @@ func build(tier string) ([]runner.Instance, time.Duration) {
 }
 
 func main() {
-	runner.Main(runner.Options{Property: "C20", Level: "exploration", Build: build,
+	runner.Main(runner.Options{Property: "C20", Level: "exploration", Build: build, RacePoints: true,
 		Assume: []string{"model of sync/context/channels in verif/vs (DESIGN §2.2)", "small scope: <=2 initial items, <=2 additions, <=2 iterators, scripts of <=4 mutations"}})
 }
